@@ -313,6 +313,7 @@ def gen_and_eval(pid, gocmd, header, footer, goargs=None, timeout=1200, env=None
     os.makedirs(wd, exist_ok=True)
     defs = os.path.join(wd, "defs.v")
     e = dict(GOENV)
+    e.update({"VERIF_TIER": os.environ.get("VERIF_TIER", "quick"), "VERIF_SEED": os.environ.get("VERIF_SEED", "1")})
     e.update(env or {})
     rc, so, se, dt = run([binp, defs] + (goargs or []), cwd=wd, env=e, timeout=timeout)
     if rc != 0:
@@ -371,6 +372,7 @@ def gen_and_eval_sharded(pid, gocmd, header, footer, goargs=None, timeout=1500, 
     shutil.rmtree(wd, ignore_errors=True)
     os.makedirs(wd)
     e = dict(GOENV)
+    e.update({"VERIF_TIER": os.environ.get("VERIF_TIER", "quick"), "VERIF_SEED": os.environ.get("VERIF_SEED", "1")})
     e.update(env or {})
     rc, so, se, dt = run([binp] + (pre_args or []) + [wd] + (goargs or []), cwd=wd, env=e, timeout=timeout)
     if rc != 0:
